@@ -352,3 +352,32 @@ Proof.
   apply not_has_In in H1, H2, H3, H4.
   repeat split; auto.
 Qed.
+
+(* _run_search: the sequence definitions are reset by the task itself, before
+   the first line of the file is read and before any sequence matching: what
+   a worker's search of file t produces does not depend on the state the
+   definition objects had when the task was pickled for the worker *)
+Definition search_resets_defs_first (sk : list ev) : bool :=
+  match split_at (Call "enumerate_lines") sk with
+  | Some (pre, _) =>
+      has (Call "seq_reset") pre && negb (has (Call "sequence_search") pre)
+      && negb (has (Call "simple_search") pre)
+  | None => false
+  end.
+
+Lemma search_resets_defs_first_sound sk :
+  search_resets_defs_first sk = true ->
+  exists pre post,
+    sk = pre ++ Call "enumerate_lines" :: post /\
+    In (Call "seq_reset") pre /\ ~ In (Call "sequence_search") pre /\
+    ~ In (Call "simple_search") pre /\ ~ In (Call "enumerate_lines") pre.
+Proof.
+  unfold search_resets_defs_first. intros H.
+  destruct (split_at (Call "enumerate_lines") sk) as [[pre post]|] eqn:E;
+    [|discriminate].
+  apply andb_true_iff in H. destruct H as [H H3].
+  apply andb_true_iff in H. destruct H as [H1 H2].
+  destruct (split_at_sound _ _ _ _ E) as [S1 N1].
+  apply negb_true_iff in H2, H3. apply not_has_In in H2, H3.
+  apply has_In in H1. exists pre, post. auto.
+Qed.
